@@ -88,6 +88,7 @@ type Exec struct {
 	notes      []string
 	stack      []string
 	marshals   map[*BObj]*marshalSnap
+	recCount   map[*ssa.Function]int
 }
 
 type goRec struct {
@@ -398,6 +399,12 @@ func (e *Exec) callFunc(fn *ssa.Function, args []Value, free []Value, pos token.
 	e.funcs[name] = true
 	e.depth++
 	e.stack = append(e.stack, fn.Name())
+	e.recCount[fn]++
+	defer func() { e.recCount[fn]-- }()
+	if e.recCount[fn] > e.eng.cfg.SelfRecLimit && e.spec == 0 {
+		e.fail("recursion", fmt.Sprintf("%s re-entered %d times on one call stack (unbounded recursion)", name, e.recCount[fn]), pos, e.tb.True())
+		panic(pathEnd{"recursion"})
+	}
 	if e.depth > e.recLimit {
 		// recursion/unbounded depth
 		e.depth--
@@ -1466,6 +1473,9 @@ func (e *Exec) appendOp(dv, sv Value, t types.Type, pos token.Pos) Value {
 func (e *Exec) strMax(s *Str) int {
 	if s.len.isConst() {
 		return int(s.len.k)
+	}
+	if s.len.rhi < 1<<20 {
+		return int(s.len.rhi)
 	}
 	if s.b != nil && s.b.max >= 0 {
 		return s.b.max
